@@ -170,8 +170,8 @@ let dispatch toks =
              let calls = List.map fst ops in
              let s0 = ss_init km in
              let answers = session pubser oc s0 calls in
-             let befores = session_states oc s0 calls in
-             let afters = (match befores with [] -> [] | _ :: r -> r) @ [session_final oc s0 calls] in
+             let befores = session_states s0 calls in
+             let afters = (match befores with [] -> [] | _ :: r -> r) @ [session_final s0 calls] in
              let reimport (after : sstate) text mode xkey =
                if mode = "x" then "-"
                else begin
